@@ -304,7 +304,9 @@ def build_real_problem(shape, m):
     Pscale = f(m.get("P_unit_scale", "86400")) if not generic else {"day": 86400.0, "year": 31557600.0, "sym": 7 * 86400.0}[shape["P_unit"]]
     P_unit = u.day if abs(Pscale - 86400.0) < 1e-6 else (u.year if abs(Pscale - 31557600.0) < 1e-3 else u.def_unit("psym", Pscale * u.s))
     tref = None
-    if shape.get("tref") == "explicit":
+    # multi-survey input is merged by validate_prepare_data into a new RVData whose reference epoch is the earliest
+    # time (per-source t_ref values are not carried over), so an explicit t_ref is only realisable for a single source
+    if shape.get("tref") == "explicit" and not noff:
         tref = Time(58000.0 + (f(m["t_ref"]) if "t_ref" in m else -3.3), format="mjd", scale="tcb")
     srcs = []
     tt = 58000.0 + t
@@ -392,6 +394,10 @@ def oracle_ll(shape, rp, prior_vals=None):
     return np.array(out)
 
 
+from checks import kernel_conc as _kc
+
+
+@_kc.replay_both
 def replay(cand):
     import numpy as np
     import astropy.units as u
